@@ -98,6 +98,7 @@ def _cmp_operand(v):
     return v
 
 
+ALLOW_REAL_ZERO = False  # set by checks/c04.py
 MAXMAG = [0.0]  # largest magnitude that took part in a real computation (for the association tolerance)
 
 
@@ -106,8 +107,11 @@ def _typed(v, t=None):
     if isinstance(v, float):
         if math.isinf(v) or math.isnan(v) or abs(v) > 1e15:
             raise Overflow()
-        if v == 0.0 and not QUIRKS:
-            raise Overflow()  # a real zero may be -0.0 in the engine (association order); how that prints is not documented
+        if v == 0.0 and not ALLOW_REAL_ZERO and not QUIRKS:
+            # a real zero may be -0.0 in the engine (association order) and how that prints is not documented: the C02
+            # reference (which compares rendered text) discards such expressions; C04 compares values, accepts either
+            # print, and keeps them because a zero divisor of either sign must give no value
+            raise Overflow()
         return (v, "R")
     if t is None:
         t = "N" if v >= 0 else "I"
@@ -176,7 +180,7 @@ def _eval(e):
     if op == "/":
         if b == 0:
             return NOVALUE
-        if a == 0 and b < 0:
+        if a == 0 and b < 0 and not ALLOW_REAL_ZERO:
             raise Overflow()  # IEEE gives -0.0
         return _typed(float(Fraction(a) / Fraction(b)))
     if op == "%":
